@@ -65,6 +65,8 @@ Definition call_ok (ms : list dmem) (k : call) : Prop :=
   | CMap mem _ _ _ => exists d, find_mem ms mem = Some d /\ dm_mapped d = false
   | CUnmap mem => exists d, find_mem ms mem = Some d /\ dm_mapped d = true
   | CFree mem => exists d, find_mem ms mem = Some d
+  | CBind _ _ mem _ _ => exists d, find_mem ms mem = Some d
+  | CFlush _ mem off size _ => exists d, find_mem ms mem = Some d /\ 0 <= off /\ 0 < size /\ off + size <= dm_size d
   | _ => True
   end.
 
@@ -93,7 +95,11 @@ Proof. intros H Hok He. unfold LogOk. cbn. eapply rp_snoc; eauto. Qed.
 
 (* calls that concern neither the mapping nor the lifetime of a memory object *)
 Definition neutral (k : call) : Prop :=
-  match k with CMap _ _ _ _ | CUnmap _ | CFree _ => False | CAlloc _ _ _ _ r => r <> 0 | _ => True end.
+  match k with
+  | CMap _ _ _ _ | CUnmap _ | CFree _ | CBind _ _ _ _ _ | CFlush _ _ _ _ _ => False
+  | CAlloc _ _ _ _ r => r <> 0
+  | _ => True
+  end.
 
 Lemma neutral_ok ms k : neutral k -> call_ok ms k /\ call_eff ms k ms.
 Proof.
@@ -143,11 +149,20 @@ Proof. unfold add_allocation. destruct (Budget.add_alloc _ _ _ _) as ((b' & r) &
 Lemma remove_allocation_sameM c m h size : mach_sameM m (fst (remove_allocation c m h size)).
 Proof. unfold remove_allocation. destruct (Budget.remove_alloc _ _ _ _) as ((b' & r) & cs). apply mach_sameM_set_bud. Qed.
 
-Lemma dev_flush_sameM m inval id off size : mach_sameM m (fst (dev_flush m inval id off size)).
+(* a call that leaves the memory objects alone, valid in the current device state *)
+Lemma LogOk_log_same ms0 m m1 k :
+  LogOk ms0 m -> m_mems m1 = m_mems m -> m_calls m1 = m_calls m -> call_ok (m_mems m) k -> call_eff (m_mems m) k (m_mems m) ->
+  LogOk ms0 (log_call m1 k).
+Proof. intros H E1 E2 Hok He. unfold LogOk in *. cbn. rewrite E1, E2. eapply rp_snoc; eauto. Qed.
+
+(* vkFlushMappedMemoryRanges / vkInvalidateMappedMemoryRanges on a live object with a range inside it *)
+Lemma dev_flush_M ms0 m inval id off size :
+  LogOk ms0 m -> (exists d, find_mem (m_mems m) id = Some d /\ 0 <= off /\ 0 < size /\ off + size <= dm_size d) ->
+  m_mems (fst (dev_flush m inval id off size)) = m_mems m /\ LogOk ms0 (fst (dev_flush m inval id off size)).
 Proof.
-  unfold dev_flush. destruct (find_mem _ _); [|apply mach_sameM_log; exact I].
+  intros H Hv. unfold dev_flush. destruct Hv as (d & Hf & Hr). rewrite Hf.
   destruct (dev_fault _ _ _) as ((f1 & fired1) & r). cbn [fst].
-  eapply mach_sameM_trans; [apply (mach_sameM_set_fault m f1 fired1)|apply mach_sameM_log; exact I].
+  split; [reflexivity|apply (LogOk_log_same ms0 m); [exact H|reflexivity|reflexivity|exists d; auto|reflexivity]].
 Qed.
 
 Lemma dev_create_res_sameM m image kind req : mach_sameM m (fst (fst (dev_create_res m image kind req))).
@@ -163,11 +178,15 @@ Proof. unfold dev_destroy_res. split; [reflexivity|]. eexists [_]. split; [refle
 Lemma dev_requirements_sameM m image id : mach_sameM m (fst (dev_requirements m image id)).
 Proof. unfold dev_requirements. cbn [fst]. apply mach_sameM_log. exact I. Qed.
 
-Lemma dev_bind_sameM m image res mem off : mach_sameM m (fst (dev_bind m image res mem off)).
+(* vkBindBufferMemory / vkBindImageMemory with a live memory object *)
+Lemma dev_bind_M ms0 m image res mem off :
+  LogOk ms0 m -> (exists d, find_mem (m_mems m) mem = Some d) ->
+  m_mems (fst (dev_bind m image res mem off)) = m_mems m /\ LogOk ms0 (fst (dev_bind m image res mem off)).
 Proof.
-  unfold dev_bind. destruct (find_res _ _) as [r|]; [|apply mach_sameM_log; exact I]. destruct (find_mem _ _); [|apply mach_sameM_log; exact I].
+  intros H Hv. unfold dev_bind. destruct Hv as (d & Hf). rewrite Hf.
+  destruct (find_res _ _) as [r|]; [|split; [reflexivity|apply (LogOk_log_same ms0 m); [exact H|reflexivity|reflexivity|exists d; auto|reflexivity]]].
   destruct (dev_fault _ _ _) as ((f1 & fired1) & code). destruct (negb _); cbn [fst];
-    (split; [reflexivity|]; eexists [_]; split; [reflexivity|constructor; [exact I|constructor]]).
+    (split; [reflexivity|apply (LogOk_log_same ms0 m); [exact H|reflexivity|reflexivity|exists d; auto|reflexivity]]).
 Qed.
 
 Lemma dev_forget_binding_sameM m res : mach_sameM m (dev_forget_binding m res).
@@ -371,6 +390,13 @@ Qed.
 
 Lemma deds_sub_nil v v' X : tab_frame v v' [] -> deds_sub v v' X X.
 Proof. intros T. apply (deds_sub_frame v v' X [] T). intros s []. Qed.
+
+Lemma MM_mach_mems ms0 v X m' : MM ms0 v X -> m_mems m' = m_mems (v_m v) -> LogOk ms0 m' -> MM ms0 (set_m v m') X.
+Proof.
+  intros (I & L) Hm L'. split; [|exact L'].
+  apply (MapInv_sub v X); [exact I|cbn; exact Hm|apply blocks_sub_eq; intros; apply get_blist_set_m|].
+  apply deds_sub_nil. apply tab_frame_set_m.
+Qed.
 
 Lemma MM_mach ms0 v X m' : MM ms0 v X -> mach_sameM (v_m v) m' -> MM ms0 (set_m v m') X.
 Proof.
